@@ -56,7 +56,26 @@ def signature(src):
     def bs(t): return [int(x.strip(), 0) for x in t.split(",") if x.strip()]
     return bs(m1.group(1)) + bs(m2.group(1))
 
+def benign_list(src):
+    m = re.search(r"matches!\(\s*type_str,\s*((?:chunk::\w+\s*\|?\s*)+)\)\s*\{\s*parse_result = Ok\(Decoded::Nothing\)", src, re.S)
+    return [[ord(c) for c in name] for name in re.findall(r"chunk::(\w+)", m.group(1))]
+
+def srgb_values(src):
+    g = int(re.search(r"fn substitute_gamma.*?from_scaled\((\d+)\)", src, re.S).group(1))
+    body = re.search(r"fn substitute_chromaticities.*?\n\}", src, re.S).group(0)
+    vals = {}
+    for name in ("white", "red", "green", "blue"):
+        mm = re.search(name + r": \(\s*ScaledFloat::from_scaled\((\d+)\),\s*ScaledFloat::from_scaled\((\d+)\),?\s*\)", body, re.S)
+        vals[name] = (int(mm.group(1)), int(mm.group(2)))
+    return [g] + [v for name in ("white", "red", "green", "blue") for v in vals[name]]
+
 RULES = [
+    ("benignChunks", "src/decoder/stream.rs", benign_list),
+    ("srgbSubstitutes", "src/srgb.rs", srgb_values),
+    ("decompressionLimit", "src/text_metadata.rs", lambda s: arith(re.search(r"pub const DECOMPRESSION_LIMIT: usize = ([^;]+);", s).group(1))),
+    ("defaultLimitBytes", "src/decoder/mod.rs", lambda s: arith(re.search(r"impl Default for Limits \{.*?bytes: ([0-9* ]+),", s, re.S).group(1))),
+    ("keywordMaxEncode", "src/text_metadata.rs", lambda s: arith(re.search(r"data\.is_empty\(\) \|\| data\.len\(\) > (\d+)", s).group(1))),
+    ("keywordMaxDecode", "src/decoder/stream.rs", lambda s: arith(re.search(r"null_byte_index == 0 \|\| null_byte_index > (\d+)", s).group(1))),
     ("chunkBufferSize", "src/decoder/stream.rs", lambda s: arith(re.search(r"pub const CHUNK_BUFFER_SIZE: usize = ([^;]+);", s).group(1))),
     ("lookbackSize", "src/decoder/zlib.rs", lambda s: arith(re.search(r"const LOOKBACK_SIZE: usize = ([^;]+);", s).group(1))),
     ("compactFactor", "src/decoder/zlib.rs", lambda s: arith(re.search(r"if self\.out_pos > LOOKBACK_SIZE \* (\d+) \{", s).group(1))),
@@ -74,6 +93,8 @@ def lean_val(v):
     raise TypeError(v)
 
 TYPES = {
+    "benignChunks": "List (List Nat)",
+    "srgbSubstitutes": "List Nat",
     "adam7Pass": "List (Nat × Nat × Nat × Nat)",
     "adam7Bits": "List (Nat × Nat × Nat × Nat)",
     "signature": "List Nat",
